@@ -89,7 +89,7 @@ Section Slice.
   Definition DX (A : amap) : list (list Z) := map Dx A.
 
   (* abstract record: (first sample, second sample, node) *)
-  Definition arecord := (Z * Z * Z)%type.
+  Notation arecord := (Z * Z * Z)%type.
   Definition rabs (r : record) : arecord := (rec_a r, rec_b r, seg_node (rec_seg r)).
   Definition recx (out : list record) : list record := filter (fun r => covx (rec_seg r)) out.
 
